@@ -287,6 +287,12 @@ def _worker(a):
             if big not in ids:
                 ids[-1 if big == 134217727 else -2] = big
     scripts = {cid: gen_script(rng, cid, cfg, length, long_texts=a.get("long_texts", 0.0)) for cid in ids}
+    if cfg.use_class and cfg.rules and seed % 2 == 0:
+        # with class rules in force, every second set of clients comes from ONE address (users behind one gateway): what the rules
+        # make of one of them must not depend on what they made of the one before
+        ip0, port0 = scripts[ids[0]][0]["ip"], scripts[ids[0]][0]["port"]
+        for cid in ids[1:]:
+            scripts[cid][0]["ip"] = ip0
     # optional: SIGUSR1 reloads that switch the service table (names keep their protocol) at fixed places of the merged order;
     # the solo reference of a client then has the reloads at the same places of ITS script
     if a.get("early_comeback"):
@@ -354,6 +360,22 @@ def _worker(a):
                 {"a": "userinfo", "user": "u", "real": "r"}, {"a": "hurry"}, {"a": "timeout"}, {"a": "registered"}],
         }
         a["merges"] = [[y] * len(scripts[y]) + [x] * len(scripts[x])]
+    if a.get("directed") == "gateway":
+        # clients behind ONE address; the rule table places them by account first and by address last.  The one without an account
+        # falls through to the address rule; the one who logs in right after it (or before it) is placed by its account - whoever
+        # was placed just before from the same address
+        y, x, z = ids[0], ids[1], ids[2]
+        ids = [y, x, z]
+        sv0 = cfg.services[0][0]
+        ip0 = ["10.1.2.3", "2001:db8::9", "192.0.2.200"][a.get("variant", 0) % 3]
+        data = [{"a": "host", "name": "gw.example"}, {"a": "ident", "name": "id"}, {"a": "nick", "name": "nn"}, {"a": "userinfo", "user": "u", "real": "r"}]
+        scripts = {
+            y: [{"a": "announce", "ip": ip0, "port": 1024}] + data + [{"a": "hurry"}, {"a": "registered"}],
+            x: [{"a": "announce", "ip": ip0, "port": 1025}, {"a": "password", "text": "+x oper1 pw"}, {"a": "reply", "svc": sv0, "text": "OK oper1"}] + data + [{"a": "hurry"}, {"a": "registered"}],
+            z: [{"a": "announce", "ip": ip0, "port": 1026}, {"a": "password", "text": "+x zed pw"}, {"a": "reply", "svc": sv0, "text": "OK zed"}] + data + [{"a": "hurry"}, {"a": "registered"}],
+        }
+        a["merges"] = [[y] * len(scripts[y]) + [x] * len(scripts[x]) + [z] * len(scripts[z]), [z] * len(scripts[z]) + [y] * len(scripts[y]) + [x] * len(scripts[x]),
+                       [x] * len(scripts[x]) + [y] * len(scripts[y]) + [z] * len(scripts[z])]
     if a.get("directed") == "validated-then-stale":
         # X's first holder gets a non-final answer, the id comes back and asks again, and the late answer to the FIRST holder follows
         # with nothing else from that service in between when X is alone; interleaved, other clients' answers come in between
@@ -627,6 +649,12 @@ def run(chk, tier, scale=1.0):
         rng = random.Random("c07v/%d/%d" % (chk.seed, i))
         cfg = proto.Config([("login.svc", rng.choice(["login", "login-ipr", "combined"]))], timeout=3600)
         jobs.append(dict(build=b, config=cfg.to_json(), seed=rng.randrange(1 << 30), nclients=3, length=14, nmerges=6 if tier == "quick" else 20, directed="validated-then-stale"))
+    for i in range(3 if tier == "quick" else 30):
+        rng = random.Random("c07g/%d/%d" % (chk.seed, i))
+        cfg = proto.Config([("login.svc", rng.choice(["login", "login-ipr"]))], timeout=3600,
+                           rules=[{"name": "a_opers", "account": "oper*", "class": "opers"}, {"name": "b_gate", "address": ["10.0.0.0/8", "2001:db8::/32", "192.0.2.0/24"][i % 3], "class": "gate"},
+                                  {"name": "c_rest", "class": "rest"}], use_class=True)
+        jobs.append(dict(build=b, config=cfg.to_json(), seed=rng.randrange(1 << 30), nclients=3, length=12, nmerges=3, directed="gateway", variant=i))
     # many announcements (serials run into two hex digits) with ids that come back while a previous holder's answer is still under way
     for i in range(6 if tier == "quick" else 60):
         rng = random.Random("c07s/%d/%d" % (chk.seed, i))
